@@ -49,6 +49,22 @@ def stats (s : Sess) : List String :=
 they meet a job's difficulty iff that difficulty is 0 (the proof-of-work itself is C01's) -/
 def pow0 : Pow := fun _ _ _ d => d == 0
 
+/-- the share's difficulty (units of 2^-16) against every job data it could be hashed with, as the harness measured it
+with its own SHA-256: `sd=<template>/<extranonce1>/<mask or - for a five-parameter submit>/<units>,…` -/
+def parseSd (rest : List String) : List ((String × String × String) × Nat) :=
+  match rest.find? (·.startsWith "sd=") with
+  | none => []
+  | some tok => ((String.ofList (tok.toList.drop 3)).splitOn ",").filterMap fun e => match e.splitOn "/" with
+    | [t, x, m, u] => some ((t, x, m), u.toNat?.getD 0)
+    | _ => none
+
+def tokOf (x : String) : String := if x = "" then "~" else x
+
+/-- proof of work from the measured table: the share meets difficulty `d` against job data `j` under `mask` -/
+def powOf (tbl : List ((String × String × String) × Nat)) (vb : String) : Pow := fun j mask _ d =>
+  let key := (j.tmpl, tokOf j.xn1, if vb = "-" then "-" else tokOf mask)
+  decide (d ≤ ((tbl.find? (·.1 = key)).map (·.2)).getD 0)
+
 def shareKey (en2 nt no vm : String) : List Nat :=
   serializeShare (hexDecode en2) (hexDecode nt) (hexDecode no) (hexDecode (if vm = "-" then "00000000" else vm))
 
@@ -101,8 +117,8 @@ def step1 (st : DSt) : List String → DSt × List String
   | ["diff", pool, txt] => emit st (onDiff st.s pool txt (diffUnits txt))
   | ["xn", pool, xn1, size] => emit st (onExtranonce st.s pool xn1 (parseNat size))
   | ["vmask", pool, mask] => emit st (onMask st.s pool mask)
-  | ["submit", id, _user, job, en2, nt, no, vb] =>
-    emit st (submit pow0 st.s id job en2 nt no vb "s" (shareKey en2 nt no vb))
+  | "submit" :: id :: _user :: job :: en2 :: nt :: no :: vb :: rest =>
+    emit st (submit (powOf (parseSd rest) vb) st.s id job en2 nt no vb "s" (shareKey en2 nt no vb))
   | ["setdest", pool, cb] => emit st (switchTo st.s pool (cb = "cb"))
   | ["advance", t] => emit st ({ st.s with now := st.s.now + parseInt t }, [])
   | "poolflag" :: pool :: rest =>
